@@ -131,4 +131,35 @@ def race (id : String) : Bool × Bool × Obs :=
 
 end SplitRequest
 
+/-! ### The handler level (har_handlers.go)
+
+A handler call = parse the request, ONE call of a log method, write that call's result.  Then it is
+the same atomic step as the method (`Op.exp`, `Op.xreset`, `Op.reset`) plus thread-local work.  The
+regenerated `handlerTable` says, per `ServeHTTP`, the least / greatest number of log-method calls on
+one execution and which methods' results are encoded to the client. -/
+
+abbrev HandlerRow := String × Nat × Nat × List String
+
+def HandlersOK (tbl : List HandlerRow) : Bool :=
+  tbl.all (fun r => r.2.2.1 ≤ 1) &&
+  (tbl.lookup "exportHandler").any (fun v => v.2.1 == 1 && v.2.2 == ["Export"]) &&
+  (tbl.lookup "resetHandler").any (fun v => v.2.1 == 1 && v.2.2 == ["ExportAndReset"])
+
+namespace SplitResetHandler
+
+/-- The seeded shape C17-H: the reset handler answers from an `Export()` snapshot (completed
+    entries only) and clears with a later `ExportAndReset()` whose result it drops.  One entry is
+    pending at the snapshot and completed by another connection before the clear.
+    Returns (what the handler answered, what the dropped call removed, what a later Export shows). -/
+def race (id : String) : Obs × Obs × Obs :=
+  let h0 := (recordRequest HarLog.init id 0).1
+  let answered := match exportLog h0 with
+    | .log es => Obs.log (es.filter fun e => e.done)
+    | o => o
+  let h1 := recordResponse h0 id 1          -- the other connection
+  let (h2, dropped) := exportAndReset h1
+  (answered, dropped, exportLog h2)
+
+end SplitResetHandler
+
 end Martian.HarLog.Conc
